@@ -23,6 +23,8 @@ func install(x *Exec) {
 	dbkit.VerifRacy = hookRacy
 	lungo.VerifPick = hookPick
 	dbkit.VerifPick = hookPick
+	lungo.VerifWrongBranch = hookWrongBranch
+	dbkit.VerifWrongBranch = hookWrongBranch
 }
 
 func uninstall() {
@@ -37,4 +39,6 @@ func uninstall() {
 	dbkit.VerifRacy = nil
 	lungo.VerifPick = nil
 	dbkit.VerifPick = nil
+	lungo.VerifWrongBranch = nil
+	dbkit.VerifWrongBranch = nil
 }
